@@ -70,8 +70,23 @@ func doPack(w int, n uint64) []byte {
 	return out
 }
 
+// spare returns b as a view into a larger array (as a receive buffer would be): what lies behind the end of the input is
+// not part of it, whatever the capacity says.
+func spare(b []byte) []byte {
+	if b == nil {
+		return nil
+	}
+	buf := make([]byte, len(b)+320)
+	for i := range buf {
+		buf[i] = byte(0x41 + i%23)
+	}
+	copy(buf, b)
+	return buf[:len(b)]
+}
+
 func doUnpack(w int, b []byte) {
 	ev := map[string]any{"e": "unpack", "w": w, "b": vio.Ints(b)}
+	b = spare(b)
 	guard(ev, func() {
 		var v uint64
 		var n int
@@ -103,6 +118,7 @@ func doUnpack(w int, b []byte) {
 
 func doBlock(b []byte) {
 	ev := map[string]any{"e": "block", "b": vio.Ints(b)}
+	b = spare(b)
 	guard(ev, func() {
 		data, total, err := varint.GetNextBlock(b)
 		if err != nil {
